@@ -11,9 +11,9 @@ static const Pool &pool(hz::Ctx &ctx) { static Pool p = build_pool(ctx.seed, 2);
 static std::string hexv(const std::vector<uint8_t> &v, size_t max = 48) { return x86::hex(v.data(), std::min(v.size(), max)) + (v.size() > max ? " ..." : ""); }
 
 // ===================================================================== C06
-struct C06Case { std::vector<std::string> lines; std::vector<int> cuts; int start = 0, prefill = 0, combo = DEFAULT_COMBO; bool noise = false; };
-static std::string ser06(const C06Case &c) { std::string s = "C06|" + std::to_string(c.start) + "|" + std::to_string(c.prefill) + "|" + std::to_string(c.combo) + "|" + (c.noise ? "1" : "0") + "|"; for (size_t i = 0; i < c.cuts.size(); i++) s += (i ? "," : "") + std::to_string(c.cuts[i]); for (auto &l : c.lines) s += "|" + l; return s; }
-static bool parse06(const std::string &s, C06Case &c) { auto f = split(s, '|'); if (f.size() < 7 || f[0] != "C06") return false; c.start = atoi(f[1].c_str()); c.prefill = atoi(f[2].c_str()); c.combo = atoi(f[3].c_str()); c.noise = f[4] == "1"; c.cuts.clear(); for (auto &x : split(f[5], ',')) if (!x.empty()) c.cuts.push_back(atoi(x.c_str())); c.lines.assign(f.begin() + 6, f.end()); return true; }
+struct C06Case { std::vector<std::string> lines; std::vector<int> cuts; int start = 0, prefill = 0, combo = DEFAULT_COMBO; bool noise = false; uint64_t pre = 0; int sep = 0 /*0 LF 1 CRLF 2 CR*/; };
+static std::string ser06(const C06Case &c) { std::string s = "C06|" + std::to_string(c.start) + "|" + std::to_string(c.prefill) + "|" + std::to_string(c.combo) + "|" + (c.noise ? "1" : "0") + ":" + std::to_string(c.pre) + ":" + std::to_string(c.sep) + "|"; for (size_t i = 0; i < c.cuts.size(); i++) s += (i ? "," : "") + std::to_string(c.cuts[i]); for (auto &l : c.lines) s += "|" + l; return s; }
+static bool parse06(const std::string &s, C06Case &c) { auto f = split(s, '|'); if (f.size() < 7 || f[0] != "C06") return false; c.start = atoi(f[1].c_str()); c.prefill = atoi(f[2].c_str()); c.combo = atoi(f[3].c_str()); { auto g = split(f[4], ':'); c.noise = g[0] == "1"; c.pre = g.size() > 1 ? strtoull(g[1].c_str(), nullptr, 10) : 0; c.sep = g.size() > 2 ? atoi(g[2].c_str()) : 0; } c.cuts.clear(); for (auto &x : split(f[5], ',')) if (!x.empty()) c.cuts.push_back(atoi(x.c_str())); c.lines.assign(f.begin() + 6, f.end()); return true; }
 
 struct HV { bool ok = true; std::string symptom, detail; };
 static void fill(std::vector<uint8_t> &b, int kind, uint64_t seed) { hz::Rng r(seed); for (auto &x : b) x = kind == 0 ? 0x00 : kind == 1 ? 0xff : (uint8_t)r.next(); }
@@ -26,13 +26,16 @@ static HV check06(const C06Case &c) {
   for (int rep = 0; rep < 3; rep++) {
     std::vector<uint8_t> buf(n); fill(buf, (c.prefill + rep) % 3, 77 + rep);
     std::vector<uint8_t> before = buf;
-    assemblyline_t a = asm_create_instance(buf.data(), (int)n); al::apply_opts(a, combo_opts(c.combo)); asm_set_offset(a, c.start);
+    assemblyline_t a = asm_create_instance(buf.data(), (int)n);
+    if (c.pre && rep == 1) { spec::Opts o = combo_opts(c.combo); prelife(a, c.pre, o.mov, o.swap, o.nobase, c.lines); before = buf; /* the previous life wrote at offset 0 */ } else al::apply_opts(a, combo_opts(c.combo), (unsigned)rep);
+    asm_set_offset(a, c.start);
+    const char *NL = c.sep == 1 ? "\r\n" : c.sep == 2 ? "\r" : "\n";
     // split at the cut positions (line indices) into successive calls
     size_t li = 0; std::vector<int> cuts = c.cuts; std::sort(cuts.begin(), cuts.end()); cuts.push_back((int)c.lines.size());
     int rc = 0; int ncall = rep;
     for (int cut : cuts) {
       if (cut <= (int)li && cut != (int)c.lines.size()) continue; if ((size_t)cut > c.lines.size()) cut = (int)c.lines.size();
-      std::string chunk; for (; li < (size_t)cut; li++) { if (c.noise && (li % 3) == 0) chunk += li % 2 ? "; comment\n" : "\nlabel_x:\n"; chunk += c.lines[li] + "\n"; }
+      std::string chunk; for (; li < (size_t)cut; li++) { if (c.noise && (li % 3) == 0) chunk += li % 2 ? std::string("; comment") + NL : std::string(NL) + "label_x:" + NL; chunk += c.lines[li] + NL; }
       if (chunk.empty() && cut != (int)c.lines.size()) continue;
       // the deprecated spelling of the entry point is an entry point too
       rc = (ncall++ & 1) ? assemble_str(a, chunk.c_str()) : asm_assemble_str(a, chunk.c_str()); if (rc != 0) break;
@@ -88,16 +91,16 @@ void prop_c06(hz::Ctx &ctx) {
     }
   }
   // (2) random longer programs, all ways of splitting, start offsets, prefill (rapidcheck, shrinking)
-  auto gen_case = rc::gen::apply([&P](std::vector<int> idx, std::vector<bool> cutflags, int start, int prefill, int combo, bool noise) {
+  auto gen_case = rc::gen::apply([&P](std::vector<int> idx, std::vector<bool> cutflags, int start, int prefill, int combo, bool noise, int pre, int sep) {
     C06Case c; if (idx.empty()) idx.push_back(0);
     for (int i : idx) c.lines.push_back(P.lines[(size_t)i % P.lines.size()]);
     for (size_t k = 1; k < c.lines.size() && k < cutflags.size(); k++) if (cutflags[k]) c.cuts.push_back((int)k);
-    c.start = start; c.prefill = prefill; c.combo = combo; c.noise = noise; return c; },
-    rc::gen::container<std::vector<int>>(range(0, 1 << 20)), rc::gen::container<std::vector<bool>>(rc::gen::arbitrary<bool>()), range(0, 4097), range(0, 3), range(0, 12), rc::gen::arbitrary<bool>());
+    c.start = start; c.prefill = prefill; c.combo = combo; c.noise = noise; c.pre = pre % 2 ? (uint64_t)pre : 0; c.sep = sep < 6 ? 0 : sep < 9 ? 1 : 2; return c; },
+    rc::gen::container<std::vector<int>>(range(0, 1 << 20)), rc::gen::container<std::vector<bool>>(rc::gen::arbitrary<bool>()), range(0, 4097), range(0, 3), range(0, 12), rc::gen::arbitrary<bool>(), range(0, 1 << 20), range(0, 11));
   rc_rounds(ctx, "C06-programs", ctx.thorough() ? 600000 : 80000, 200, [&]() {
     C06Case c = *gen_case;
     std::string id = ser06(c); if (!ctx.begin(id, join(c.lines, "\\n").substr(0, 300))) return;
-    ctx.cls("part:programs"); ctx.cls(c.cuts.empty() ? "calls:one" : "calls:split"); if (c.start) ctx.cls("start:nonzero");
+    ctx.cls("part:programs"); ctx.cls(c.cuts.empty() ? "calls:one" : "calls:split"); if (c.start) ctx.cls("start:nonzero"); if (c.pre) ctx.cls("instance:previous-life"); if (c.sep) ctx.cls(c.sep == 1 ? "newline:crlf" : "newline:cr");
     if (c.lines.size() >= 2) ctx.nontrivial(id);
     HV v = check06(c);
     if (ctx.want_sample()) ctx.put_sample(std::to_string(c.lines.size()) + " lines, " + std::to_string(c.cuts.size() + 1) + " calls, start " + std::to_string(c.start) + ", first line \"" + c.lines[0] + "\" -> " + (v.ok ? "concatenation" : v.symptom));
@@ -133,17 +136,18 @@ static std::string check_fitting(const std::vector<std::vector<uint8_t>> &insns,
 }
 static int expected_breaks(const std::vector<std::vector<uint8_t>> &insns, size_t start, size_t c) { if (c < 2) return 0; int n = 0; size_t pos = start; for (auto &b : insns) { if (pos / c != (pos + b.size() - 1) / c) n++; pos += b.size(); } return n; }
 
-struct ChunkCase { std::vector<std::string> lines; int c = 16, start = 0, combo = DEFAULT_COMBO; int toggle = 0; /* C13: 0 none, 1 off-then-on between two calls, 2 on-then-off */ int calls = 1; bool counting = false; };
-static std::string serck(const ChunkCase &k) { std::string s = std::string(k.counting ? "C14" : "C13") + "|" + std::to_string(k.c) + "|" + std::to_string(k.start) + "|" + std::to_string(k.combo) + "|" + std::to_string(k.toggle) + "|" + std::to_string(k.calls); for (auto &l : k.lines) s += "|" + l; return s; }
-static bool parseck(const std::string &s, ChunkCase &k) { auto f = split(s, '|'); if (f.size() < 7) return false; k.counting = f[0] == "C14"; k.c = atoi(f[1].c_str()); k.start = atoi(f[2].c_str()); k.combo = atoi(f[3].c_str()); k.toggle = atoi(f[4].c_str()); k.calls = atoi(f[5].c_str()); k.lines.assign(f.begin() + 6, f.end()); return true; }
+struct ChunkCase { long long bigc = 0; /* if non-zero the chunk size really used (values beyond int) */ bool count_first = false; /* C13: a counting call between asm_set_chunk_size and the fitted call */ uint64_t pre = 0; /* seed of the instance's previous life, 0 = fresh */ bool internal = false; std::vector<std::string> lines; int c = 16, start = 0, combo = DEFAULT_COMBO; int toggle = 0; /* C13: 0 none, 1 off-then-on between two calls, 2 on-then-off */ int calls = 1; bool counting = false; };
+static std::string serck(const ChunkCase &k) { std::string s = std::string(k.counting ? "C14" : "C13") + "|" + std::to_string(k.c) + "|" + std::to_string(k.start) + "|" + std::to_string(k.combo) + "|" + std::to_string(k.toggle) + "|" + std::to_string(k.calls + 100 * (k.internal ? 1 : 0)) + ":" + std::to_string(k.pre) + ":" + std::to_string(k.bigc) + ":" + (k.count_first ? "1" : "0"); for (auto &l : k.lines) s += "|" + l; return s; }
+static bool parseck(const std::string &s, ChunkCase &k) { auto f = split(s, '|'); if (f.size() < 7) return false; k.counting = f[0] == "C14"; k.c = atoi(f[1].c_str()); k.start = atoi(f[2].c_str()); k.combo = atoi(f[3].c_str()); k.toggle = atoi(f[4].c_str()); { auto g = split(f[5], ':'); int cc = atoi(g[0].c_str()); k.internal = cc >= 100; k.calls = cc % 100; k.pre = g.size() > 1 ? strtoull(g[1].c_str(), nullptr, 10) : 0; k.bigc = g.size() > 2 ? atoll(g[2].c_str()) : 0; k.count_first = g.size() > 3 && g[3] == "1"; } k.lines.assign(f.begin() + 6, f.end()); return true; }
 
 static HV check13(const ChunkCase &k, size_t *pads = nullptr) {
   HV v; auto bad = [&](const std::string &s, const std::string &d) { v.ok = false; v.symptom = s; v.detail = d; return v; };
   std::vector<std::vector<uint8_t>> ins; size_t total = 0; for (auto &l : k.lines) { ins.push_back(solo(l, k.combo)); if (ins.back().empty()) return bad("harness", "line does not assemble alone: " + l); total += ins.back().size(); }
   size_t n = k.start + total + (size_t)std::min(k.c, 4096) * ins.size() / 1 + 128; if (n > (1u << 20)) n = 1u << 20;
   n = k.start + total + ins.size() * 16 + 128;
-  std::vector<uint8_t> buf(n, 0xcc);
-  assemblyline_t a = asm_create_instance(buf.data(), (int)n); al::apply_opts(a, combo_opts(k.combo)); asm_set_offset(a, k.start);
+  std::vector<uint8_t> ext(n, 0xcc);
+  assemblyline_t a = asm_create_instance(k.internal ? nullptr : ext.data(), (int)n); al::apply_opts(a, combo_opts(k.combo), (unsigned)k.start); asm_set_offset(a, k.start);
+  const size_t CHUNK = k.bigc ? (size_t)k.bigc : (size_t)std::max(k.c, 0);
   // toggling: the program is split in two halves; fitting is only active for the half the toggle selects
   size_t half = k.lines.size() / 2;
   std::vector<std::pair<std::vector<std::string>, bool>> parts;
@@ -154,19 +158,22 @@ static HV check13(const ChunkCase &k, size_t *pads = nullptr) {
   else { std::vector<std::string> A(k.lines.begin(), k.lines.begin() + half), B(k.lines.begin() + half, k.lines.end()); parts.push_back({A, k.toggle == 2}); parts.push_back({B, k.toggle == 1 || k.toggle == 3}); }
   size_t li = 0; size_t pos = k.start; size_t req_total = 0;
   for (auto &pt : parts) {
-    asm_set_chunk_size(a, pt.second ? (size_t)k.c : 1);
+    asm_set_chunk_size(a, pt.second ? CHUNK : 1);
+    if (k.count_first) { // a counting call in between must leave the fitting setup alone
+      int keep = asm_get_offset(a), cnt = 0; std::string one = pt.first[0] + "\n"; std::vector<char> w(one.begin(), one.end()); w.push_back(0); asm_assemble_string_counting_chunks(a, w.data(), 8, &cnt); asm_set_offset(a, keep); }
     std::string text = join(pt.first);
     int rc = asm_assemble_str(a, text.c_str()); int off = asm_get_offset(a);
+    const uint8_t *bufp = (const uint8_t *)asm_get_code(a);
     if (rc != 0) { asm_destroy_instance(a); return bad("rejected", "fitting call failed"); }
-    if (off < (int)pos || off > (int)n) { asm_destroy_instance(a); return bad("offset", "offset " + std::to_string(off)); }
+    if (off < (int)pos || (!k.internal && off > (int)n)) { asm_destroy_instance(a); return bad("offset", "offset " + std::to_string(off)); }
     std::vector<std::vector<uint8_t>> sub(ins.begin() + li, ins.begin() + li + pt.first.size());
     size_t req = 0;
-    std::string why = check_fitting(sub, buf.data() + pos, off - pos, pos, pt.second ? (size_t)k.c : 1, &req);
-    if (!why.empty()) { asm_destroy_instance(a); return bad(pt.second && k.c >= 2 ? "fitting" : "plain-altered", why + " ; chunk " + std::to_string(pt.second ? k.c : 1) + ", call started at " + std::to_string(pos) + ", emitted " + x86::hex(buf.data() + pos, std::min<size_t>(off - pos, 40))); }
+    std::string why = check_fitting(sub, bufp + pos, off - pos, pos, pt.second ? CHUNK : 1, &req);
+    if (!why.empty()) { asm_destroy_instance(a); return bad(pt.second && CHUNK >= 2 ? "fitting" : "plain-altered", why + " ; chunk " + std::to_string(pt.second ? CHUNK : 1) + ", call started at " + std::to_string(pos) + ", emitted " + x86::hex(bufp + pos, std::min<size_t>(off - pos, 40))); }
     req_total += req; li += pt.first.size(); pos = off;
   }
   asm_destroy_instance(a);
-  for (int i = 0; i < k.start; i++) if (buf[i] != 0xcc) return bad("prefix-touched", "byte before the start modified");
+  if (!k.internal) for (int i = 0; i < k.start; i++) if (ext[i] != 0xcc) return bad("prefix-touched", "byte before the start modified");
   if (pads) *pads = req_total;
   return v;
 }
@@ -174,8 +181,10 @@ static HV check13(const ChunkCase &k, size_t *pads = nullptr) {
 static HV check14(const ChunkCase &k, int *expected_out = nullptr) {
   HV v; auto bad = [&](const std::string &s, const std::string &d) { v.ok = false; v.symptom = s; v.detail = d; return v; };
   std::vector<std::vector<uint8_t>> ins; size_t total = 0; for (auto &l : k.lines) { ins.push_back(solo(l, k.combo)); if (ins.back().empty()) return bad("harness", "line does not assemble alone: " + l); total += ins.back().size(); }
-  size_t n = k.start + total * k.calls + 128; std::vector<uint8_t> buf(n, 0xcc);
-  assemblyline_t a = asm_create_instance(buf.data(), (int)n); al::apply_opts(a, combo_opts(k.combo)); asm_set_offset(a, k.start);
+  size_t n = k.start + total * std::max(1, k.calls) + 128; std::vector<uint8_t> ext(n, 0xcc);
+  assemblyline_t a = asm_create_instance(k.internal ? nullptr : ext.data(), (int)n);
+  if (k.pre) { spec::Opts o = combo_opts(k.combo); prelife(a, k.pre, o.mov, o.swap, o.nobase, k.lines); } else al::apply_opts(a, combo_opts(k.combo));
+  asm_set_offset(a, k.start);
   size_t pos = k.start;
   for (int call = 0; call < std::max(1, k.calls); call++) {
     std::string text = join(k.lines); std::vector<char> w(text.begin(), text.end()); w.push_back(0);
@@ -183,7 +192,8 @@ static HV check14(const ChunkCase &k, int *expected_out = nullptr) {
     if (rc != 0) { asm_destroy_instance(a); return bad("rejected", "counting call " + std::to_string(call) + " failed"); }
     int want = expected_breaks(ins, pos, k.c < 2 ? 0 : (size_t)k.c); if (expected_out && call == 0) *expected_out = want;
     if (off != (int)(pos + total)) { asm_destroy_instance(a); return bad("offset", "offset " + std::to_string(off) + " want " + std::to_string(pos + total)); }
-    size_t q = pos; for (auto &b : ins) { if (memcmp(buf.data() + q, b.data(), b.size())) { asm_destroy_instance(a); return bad("bytes", "counting call does not emit the plain code at position " + std::to_string(q)); } q += b.size(); }
+    const uint8_t *buf = (const uint8_t *)asm_get_code(a);
+    size_t q = pos; for (auto &b : ins) { if (memcmp(buf + q, b.data(), b.size())) { asm_destroy_instance(a); return bad("bytes", "counting call does not emit the plain code at position " + std::to_string(q)); } q += b.size(); }
     if (cnt != want) { asm_destroy_instance(a); return bad("count", "call " + std::to_string(call) + " started at " + std::to_string(pos) + " with chunk " + std::to_string(k.c) + ": reported " + std::to_string(cnt) + ", " + std::to_string(want) + " instructions span two or more chunks"); }
     pos = off;
   }
@@ -213,15 +223,30 @@ void prop_c13(hz::Ctx &ctx) {
     if (ctx.want_sample()) ctx.put_sample("chunk " + std::to_string(c) + ", start " + std::to_string(start) + ": " + join(k.lines, " ; ") + " -> " + (v.ok ? std::to_string(pads) + " pad(s), valid layout" : v.symptom));
     if (!v.ok) ctx.fail(failck(k, v));
   }
+  // long programs on the library-managed buffer: chunk sizes around and beyond its initial length, code that runs past them
+  {
+    hz::Rng r(ctx.seed ^ 0x13b); int nlong = ctx.thorough() ? 300 : 40; static const int BIGC[] = {5999, 6000, 6001, 6019, 6020, 6021, 6025, 7003, 8192, 9999, 12000, 12001};
+    for (int t = 0; t < nlong; t++) {
+      ChunkCase k; k.internal = true; k.c = BIGC[r.below(12)]; k.combo = (int)r.below(12); k.start = r.below(3) == 0 ? k.c - (int)r.below(30) : 0; k.count_first = r.below(4) == 0;
+      int nl = 1500 + (int)r.below(3000); for (int i = 0; i < nl; i++) k.lines.push_back(P.lines[r.below(P.lines.size())]);
+      if (!ctx.take()) continue;
+      std::string id = "C13L|" + std::to_string(k.c) + "|" + std::to_string(t) + "|" + std::to_string(ctx.seed); if (!ctx.begin(id, "long program, library-managed buffer, chunk " + std::to_string(k.c))) continue;
+      size_t pads = 0; HV v = check13(k, &pads);
+      ctx.cls("part:long-internal"); if (pads) { ctx.cls("pad:required"); ctx.nontrivial(id); }
+      if (ctx.want_sample()) ctx.put_sample(std::to_string(nl) + " lines on the library-managed buffer, chunk " + std::to_string(k.c) + ", start " + std::to_string(k.start) + " -> " + (v.ok ? std::to_string(pads) + " pad(s), valid layout" : v.symptom));
+      if (!v.ok) { hz::Failure f = failck(k, v); f.text = std::to_string(nl) + " lines, library-managed buffer [chunk " + std::to_string(k.c) + ", start " + std::to_string(k.start) + "]"; ctx.fail(f); }
+    }
+  }
   // random programs x chunk size x start offset x toggling (rapidcheck)
-  auto gen_case = rc::gen::apply([&P](std::vector<int> idx, int c, int start, int combo, int toggle) {
+  auto gen_case = rc::gen::apply([&P](std::vector<int> idx, int c, int start, int combo, int toggle, int big, bool cf) {
     ChunkCase k; if (idx.empty()) idx.push_back(1); for (int i : idx) k.lines.push_back(P.lines[(size_t)i % P.lines.size()]);
-    static const int CS[] = {0, 1, 2, 3, 4, 5, 7, 8, 11, 12, 13, 15, 16, 17, 24, 31, 32, 33, 64, 100, 128, 4096}; k.c = CS[c % 22]; k.start = start; k.combo = combo; k.toggle = toggle; return k; },
-    rc::gen::container<std::vector<int>>(range(0, 1 << 20)), range(0, 22), range(0, 300), range(0, 12), range(0, 4));
+    static const int CS[] = {0, 1, 2, 3, 4, 5, 7, 8, 11, 12, 13, 15, 16, 17, 24, 31, 32, 33, 64, 100, 128, 4096}; k.c = CS[c % 22]; k.start = start; k.combo = combo; k.toggle = toggle;
+    static const long long BIG[] = {(1LL << 32), (1LL << 32) + 16, (1LL << 32) + 3, (1LL << 33) + 8, (1LL << 40) + 5, (1LL << 31), (1LL << 31) + 16}; if (big < 7) { k.bigc = BIG[big]; k.c = 1 << 30; } k.count_first = cf; return k; },
+    rc::gen::container<std::vector<int>>(range(0, 1 << 20)), range(0, 22), range(0, 300), range(0, 12), range(0, 4), range(0, 60), rc::gen::arbitrary<bool>());
   rc_rounds(ctx, "C13-programs", ctx.thorough() ? 2000000 : 250000, 60, [&]() {
     ChunkCase k = *gen_case; std::string id = serck(k); if (!ctx.begin(id, join(k.lines, "\\n").substr(0, 300))) return;
     size_t pads = 0; HV v = check13(k, &pads);
-    ctx.cls("part:programs"); if (k.toggle) ctx.cls("toggle:yes"); if (k.c < 2) ctx.cls("c:below2"); if (pads) { ctx.cls("pad:required"); ctx.nontrivial(id); }
+    ctx.cls("part:programs"); if (k.toggle) ctx.cls("toggle:yes"); if (k.c < 2) ctx.cls("c:below2"); if (k.bigc) ctx.cls("c:beyond-32-bits"); if (k.count_first) ctx.cls("counting-call-in-between"); if (pads) { ctx.cls("pad:required"); ctx.nontrivial(id); }
     if (ctx.want_sample()) ctx.put_sample(std::to_string(k.lines.size()) + " lines, chunk " + std::to_string(k.c) + ", start " + std::to_string(k.start) + ", toggle " + std::to_string(k.toggle) + " -> " + (v.ok ? std::to_string(pads) + " pad(s), valid layout" : v.symptom));
     if (!v.ok) { hz::Failure f = failck(k, v); if (ctx.match_known(f.tags).empty()) { rc_report(f); RC_FAIL(v.symptom + ": " + v.detail); } else ctx.fail(f); }
   });
@@ -234,22 +259,35 @@ void prop_c14(hz::Ctx &ctx) {
   std::vector<int> cs = {-1, 0, 1}; for (int c = 2; c <= 40; c++) cs.push_back(c); cs.push_back(64); cs.push_back(4096); cs.push_back(1 << 20);
   for (int c : cs) for (int s = 0; s < std::min(std::max(c, 1), 80); s++) for (size_t r = 0; r < reps.size(); r++) {
     if (!ctx.take()) continue;
-    ChunkCase k; k.counting = true; k.c = c; k.start = c > 80 ? c - 40 + s : s; k.combo = (int)((c + s + r) & 7) % 12; k.calls = 1 + (int)((s + r) % 3); k.lines = {reps[r], reps[(r + s) % reps.size()], reps[(r * 5 + 1) % reps.size()]};
+    ChunkCase k; k.counting = true; k.c = c; k.start = c > 80 ? c - 40 + s : s; k.combo = (int)((c + s + r) & 7) % 12; k.calls = 1 + (int)((s + r) % 3); if ((s + 2 * r + c) % 3 == 0) k.pre = ctx.seed * 1000 + s * 31 + r; k.lines = {reps[r], reps[(r + s) % reps.size()], reps[(r * 5 + 1) % reps.size()]};
     std::string id = serck(k); if (!ctx.begin(id, join(k.lines, "\\n"))) continue;
     int want = 0; HV v = check14(k, &want);
-    ctx.cls("part:exhaustive"); if (c < 2) ctx.cls("c:below2"); if (k.calls > 1) ctx.cls("calls:repeated");
+    ctx.cls("part:exhaustive"); if (c < 2) ctx.cls("c:below2"); if (k.calls > 1) ctx.cls("calls:repeated"); if (k.pre) ctx.cls("instance:previous-life");
     if (want >= 1 && k.start != 0) ctx.nontrivial(id);
     if (ctx.want_sample()) ctx.put_sample("counting, chunk " + std::to_string(c) + ", start " + std::to_string(k.start) + ", " + std::to_string(k.calls) + " call(s): " + join(k.lines, " ; ") + " -> " + (v.ok ? "count " + std::to_string(want) : v.symptom));
     if (!v.ok) ctx.fail(failck(k, v));
   }
-  auto gen_case = rc::gen::apply([&P](std::vector<int> idx, int c, int start, int combo, int calls) {
+  {
+    hz::Rng r(ctx.seed ^ 0x14b); int nlong = ctx.thorough() ? 300 : 40; static const int BIGC[] = {5999, 6000, 6001, 6019, 6020, 6021, 6025, 7003, 9999, 12000, 12001, 18020};
+    for (int t = 0; t < nlong; t++) {
+      ChunkCase k; k.counting = true; k.internal = true; k.c = BIGC[r.below(12)]; k.combo = (int)r.below(12); k.calls = 1; k.start = 0; if (r.below(3) == 0) k.pre = r.next() | 1;
+      int nl = 1200 + (int)r.below(3500); for (int i = 0; i < nl; i++) k.lines.push_back(P.lines[r.below(P.lines.size())]);
+      if (!ctx.take()) continue;
+      std::string id = "C14L|" + std::to_string(k.c) + "|" + std::to_string(k.combo) + "|" + std::to_string(k.pre) + "|" + std::to_string(t) + "|" + std::to_string(ctx.seed); if (!ctx.begin(id, "long program, library-managed buffer, chunk " + std::to_string(k.c))) continue;
+      int want = 0; HV v = check14(k, &want);
+      ctx.cls("part:long-internal"); ctx.cls("buffer:library-managed"); if (want >= 1) ctx.nontrivial(id);
+      if (ctx.want_sample()) ctx.put_sample(std::to_string(nl) + " lines on the library-managed buffer, chunk " + std::to_string(k.c) + " -> " + (v.ok ? "count " + std::to_string(want) : v.symptom));
+      if (!v.ok) { hz::Failure f = failck(k, v); f.caseid = serck(k); f.text = std::to_string(nl) + " lines, library-managed buffer [chunk " + std::to_string(k.c) + "]"; ctx.fail(f); }
+    }
+  }
+  auto gen_case = rc::gen::apply([&P](std::vector<int> idx, int c, int start, int combo, int calls, int pre, bool internal) {
     ChunkCase k; k.counting = true; if (idx.empty()) idx.push_back(1); for (int i : idx) k.lines.push_back(P.lines[(size_t)i % P.lines.size()]);
-    static const int CS[] = {-5, -1, 0, 1, 2, 3, 4, 5, 7, 8, 11, 13, 15, 16, 17, 32, 33, 64, 100, 4096, 65536, 1 << 30}; k.c = CS[c % 22]; k.start = start; k.combo = combo; k.calls = calls; return k; },
-    rc::gen::container<std::vector<int>>(range(0, 1 << 20)), range(0, 22), range(0, 300), range(0, 12), range(1, 4));
+    static const int CS[] = {-5, -1, 0, 1, 2, 3, 4, 5, 7, 8, 11, 13, 15, 16, 17, 32, 33, 64, 100, 4096, 65536, 1 << 30}; k.c = CS[c % 22]; k.start = start; k.combo = combo; k.calls = calls; k.pre = pre % 3 == 0 ? 0 : (uint64_t)pre; k.internal = internal; return k; },
+    rc::gen::container<std::vector<int>>(range(0, 1 << 20)), range(0, 22), range(0, 300), range(0, 12), range(1, 4), range(0, 1 << 20), rc::gen::arbitrary<bool>());
   rc_rounds(ctx, "C14-programs", ctx.thorough() ? 3000000 : 300000, 60, [&]() {
     ChunkCase k = *gen_case; std::string id = serck(k); if (!ctx.begin(id, join(k.lines, "\\n").substr(0, 300))) return;
     int want = 0; HV v = check14(k, &want);
-    ctx.cls("part:programs"); if (k.c < 2) ctx.cls("c:below2"); if (k.calls > 1) ctx.cls("calls:repeated"); if (want >= 1 && k.start != 0) ctx.nontrivial(id);
+    ctx.cls("part:programs"); if (k.c < 2) ctx.cls("c:below2"); if (k.calls > 1) ctx.cls("calls:repeated"); if (k.pre) ctx.cls("instance:previous-life"); if (k.internal) ctx.cls("buffer:library-managed"); if (want >= 1 && k.start != 0) ctx.nontrivial(id);
     if (ctx.want_sample()) ctx.put_sample(std::to_string(k.lines.size()) + " lines, chunk " + std::to_string(k.c) + ", start " + std::to_string(k.start) + ", " + std::to_string(k.calls) + " call(s) -> " + (v.ok ? "count " + std::to_string(want) : v.symptom));
     if (!v.ok) { hz::Failure f = failck(k, v); if (ctx.match_known(f.tags).empty()) { rc_report(f); RC_FAIL(v.symptom + ": " + v.detail); } else ctx.fail(f); }
   });
@@ -257,6 +295,7 @@ void prop_c14(hz::Ctx &ctx) {
 
 // ===================================================================== C12
 struct Model { int mov = 2, swap = 1, nobase = 1; };
+// an option value a setter does not document changes nothing
 static void model_apply(Model &m, int setter, int v) {
   switch (setter) {
     case 0: if (v >= 0 && v <= 2) m.mov = v; break;
@@ -328,12 +367,13 @@ void prop_c12(hz::Ctx &ctx) {
   // from every reachable state (12) every single transition (20)
   for (int mv = 0; mv < 3; mv++) for (int sw = 0; sw < 2; sw++) for (int nb = 0; nb < 2; nb++) for (auto &t : alltr) run({{0, 0, mv}, {0, 1, sw}, {0, 2, nb}, t}, 1, "part:state-x-transition");
   // random long sequences over 1-3 live instances
-  auto gcmd = rc::gen::apply([](int i, int s, int v) { return SetCmd{i, s, VALS[v]}; }, range(0, 3), range(0, 5), range(0, 4));
+  static const int MOREVALS[] = {0, 1, 2, 7, 0, 1, 2, 3, 4, 255, 256, 257, 258, 512, 513, 65536, 65537, -1, -2, 0x7fffffff, (int)0x80000000, 0x100, 0x101};
+  auto gcmd = rc::gen::apply([](int i, int s, int v) { return SetCmd{i, s, MOREVALS[v]}; }, range(0, 3), range(0, 5), range(0, 23));
   auto gen_case = rc::gen::pair(range(1, 4), rc::gen::container<std::vector<SetCmd>>(gcmd));
   rc_rounds(ctx, "C12-sequences", ctx.thorough() ? 1000000 : 150000, 40, [&]() {
     auto pr = *gen_case; int ninst = pr.first; std::vector<SetCmd> h = pr.second; for (auto &c : h) c.inst %= ninst;
     std::string id = ser12(h, ninst); if (!ctx.begin(id, text12(h).substr(0, 300))) return;
-    ctx.cls("part:random"); if (ninst > 1) ctx.cls("instances:several"); if (h.size() >= 2) ctx.nontrivial(id);
+    ctx.cls("part:random"); if (ninst > 1) ctx.cls("instances:several"); if (h.size() >= 2) ctx.nontrivial(id); for (auto &c : h) if (c.value > 2 || c.value < 0) { ctx.cls("value:out-of-range"); break; }
     HV v = check12(h, ninst);
     if (ctx.want_sample()) ctx.put_sample(std::to_string(ninst) + " instance(s): " + text12(h).substr(0, 200) + "-> " + (v.ok ? "as documented" : v.detail));
     if (!v.ok) { hz::Failure f = fail12(h, ninst, v); if (ctx.match_known(f.tags).empty()) { rc_report(f); RC_FAIL(v.detail); } else ctx.fail(f); }
@@ -346,20 +386,20 @@ void showValue(const SetCmd &c, std::ostream &os) { os << SETTER[c.setter] << "(
 struct HCmd { int kind, a, b, c; };
 // kinds: 0 setter(a=setter,b=value) 1 set_chunk(a) 2 set_offset(a) 3 assemble valid(a=seed,b=nlines) 4 assemble failing(a=seed,b=nlines,c=bad position)
 //        5 counting(a=seed,b=nlines,c=chunk) 6 create bystander 7 destroy bystander 8 bystander assembles(a=seed) 9 bystander setter(a,b)
-struct C15Case { std::vector<HCmd> hist; int k = 0; HCmd final{3, 1, 3, 0}; uint64_t poolseed = 1; };
-static std::string ser15(const C15Case &c) { std::string s = "C15|" + std::to_string(c.poolseed) + "|" + std::to_string(c.k) + "|" + std::to_string(c.final.kind) + ":" + std::to_string(c.final.a) + ":" + std::to_string(c.final.b) + ":" + std::to_string(c.final.c); for (auto &h : c.hist) s += "|" + std::to_string(h.kind) + ":" + std::to_string(h.a) + ":" + std::to_string(h.b) + ":" + std::to_string(h.c); return s; }
-static bool parse15(const std::string &s, C15Case &c) { auto f = split(s, '|'); if (f.size() < 4 || f[0] != "C15") return false; c.poolseed = strtoull(f[1].c_str(), nullptr, 10); c.k = atoi(f[2].c_str()); auto g = split(f[3], ':'); if (g.size() != 4) return false; c.final = {atoi(g[0].c_str()), atoi(g[1].c_str()), atoi(g[2].c_str()), atoi(g[3].c_str())}; for (size_t i = 4; i < f.size(); i++) { auto q = split(f[i], ':'); if (q.size() != 4) return false; c.hist.push_back({atoi(q[0].c_str()), atoi(q[1].c_str()), atoi(q[2].c_str()), atoi(q[3].c_str())}); } return true; }
+struct C15Case { std::vector<HCmd> hist; int k = 0; HCmd final{3, 1, 3, 0}; uint64_t poolseed = 1; int n = 16384; /* caller buffer length of both instances */ };
+static std::string ser15(const C15Case &c) { std::string s = "C15|" + std::to_string(c.poolseed) + ":" + std::to_string(c.n) + "|" + std::to_string(c.k) + "|" + std::to_string(c.final.kind) + ":" + std::to_string(c.final.a) + ":" + std::to_string(c.final.b) + ":" + std::to_string(c.final.c); for (auto &h : c.hist) s += "|" + std::to_string(h.kind) + ":" + std::to_string(h.a) + ":" + std::to_string(h.b) + ":" + std::to_string(h.c); return s; }
+static bool parse15(const std::string &s, C15Case &c) { auto f = split(s, '|'); if (f.size() < 4 || f[0] != "C15") return false; { auto g = split(f[1], ':'); c.poolseed = strtoull(g[0].c_str(), nullptr, 10); c.n = g.size() > 1 ? atoi(g[1].c_str()) : 16384; } c.k = atoi(f[2].c_str()); auto g = split(f[3], ':'); if (g.size() != 4) return false; c.final = {atoi(g[0].c_str()), atoi(g[1].c_str()), atoi(g[2].c_str()), atoi(g[3].c_str())}; for (size_t i = 4; i < f.size(); i++) { auto q = split(f[i], ':'); if (q.size() != 4) return false; c.hist.push_back({atoi(q[0].c_str()), atoi(q[1].c_str()), atoi(q[2].c_str()), atoi(q[3].c_str())}); } return true; }
 static std::string program_for(const Pool &P, int seed, int nlines, int badpos) { hz::Rng r((uint64_t)seed * 2654435761ULL + 17); std::string s; nlines = 1 + (nlines % 12); for (int i = 0; i < nlines; i++) { if (badpos >= 0 && i == badpos % nlines) s += P.bad[r.below(P.bad.size())] + "\n"; s += P.lines[r.below(P.lines.size())] + "\n"; } return s; }
-static const int CHUNKS15[] = {0, 1, 2, 3, 8, 16, 17, 64};
+static const size_t CHUNKS15[] = {0, 1, 2, 3, 8, 16, 17, ((size_t)1 << 32) + 16};
 static std::string text15(const Pool &P, const HCmd &h) {
   char b[96];
   switch (h.kind) {
     case 0: return std::string(SETTER[h.a % 5]) + "(" + valname(h.b) + ")";
-    case 1: snprintf(b, sizeof b, "asm_set_chunk_size(%d)", CHUNKS15[h.a % 8]); return b;
+    case 1: snprintf(b, sizeof b, "asm_set_chunk_size(%zu)", CHUNKS15[h.a % 8]); return b;
     case 2: snprintf(b, sizeof b, "asm_set_offset(%d)", h.a % 4096); return b;
     case 3: return "asm_assemble_str(<" + std::to_string(1 + h.b % 12) + " valid lines #" + std::to_string(h.a) + ">)";
     case 4: return "asm_assemble_str(<program #" + std::to_string(h.a) + " with a bad line>)";
-    case 5: snprintf(b, sizeof b, "asm_assemble_string_counting_chunks(<program #%d%s>, %d)", h.a, (h.a % 3) == 0 ? " with a bad line" : "", CHUNKS15[h.c % 8]); return b;
+    case 5: snprintf(b, sizeof b, "asm_assemble_string_counting_chunks(<program #%d%s>, %d)", h.a, (h.a % 3) == 0 ? " with a bad line" : "", (int)CHUNKS15[h.c % 8]); return b;
     case 6: return "create bystander"; case 7: return "destroy bystander"; case 8: return "bystander assembles"; case 9: return std::string("bystander ") + SETTER[h.a % 5] + "(" + valname(h.b) + ")";
   }
   (void)P; return "?";
@@ -370,25 +410,25 @@ struct CallOut { int rc = 0, off = 0, cnt = 0; };
 static CallOut do_call(assemblyline_t a, const Pool &P, const HCmd &h) {
   CallOut o;
   if (h.kind == 3 || h.kind == 4) { std::string p = program_for(P, h.a, h.b, h.kind == 4 ? h.c : -1); o.rc = asm_assemble_str(a, p.c_str()); }
-  else { std::string p = program_for(P, h.a, h.b, (h.a % 3) == 0 ? h.a : -1); std::vector<char> w(p.begin(), p.end()); w.push_back(0); o.rc = asm_assemble_string_counting_chunks(a, w.data(), CHUNKS15[h.c % 8], &o.cnt); }
+  else { std::string p = program_for(P, h.a, h.b, (h.a % 3) == 0 ? h.a : -1); std::vector<char> w(p.begin(), p.end()); w.push_back(0); o.rc = asm_assemble_string_counting_chunks(a, w.data(), (int)CHUNKS15[h.c % 8], &o.cnt); }
   o.off = asm_get_offset(a); return o;
 }
 static HV check15(const Pool &P, const C15Case &c) {
   HV v; auto bad = [&](const std::string &s, const std::string &d) { v.ok = false; v.symptom = s; v.detail = d; return v; };
-  const int N = 16384;
-  std::vector<uint8_t> buf(N, 0xcc), fresh(N, 0xcc); std::vector<std::vector<uint8_t>> obuf(2, std::vector<uint8_t>(4096, 0)); assemblyline_t other[2] = {nullptr, nullptr};
+  const int N = c.n;
+  /* one spare byte: a NULL buffer pointer would select the library-managed buffer */ std::vector<uint8_t> buf(N + 1, 0xcc), fresh(N + 1, 0xcc); std::vector<std::vector<uint8_t>> obuf(2, std::vector<uint8_t>(4096, 0)); assemblyline_t other[2] = {nullptr, nullptr};
   assemblyline_t a = asm_create_instance(buf.data(), N), f = asm_create_instance(fresh.data(), N);
   int explicit_off = 0; bool after_failure = false;
-  Model mopt; int last_chunk = -1;   // the CURRENT options and chunk setting are all the fresh instance gets
+  Model mopt; size_t last_chunk = 0;   // the CURRENT options and chunk setting are all the fresh instance gets
   for (auto &h : c.hist) {
     switch (h.kind) {
       case 0: real_apply(a, h.a % 5, h.b); model_apply(mopt, h.a % 5, h.b); break;
       case 1: asm_set_chunk_size(a, CHUNKS15[h.a % 8]); last_chunk = CHUNKS15[h.a % 8]; break;
-      case 2: asm_set_offset(a, h.a % 4096); explicit_off = h.a % 4096; after_failure = false; break;
+      case 2: asm_set_offset(a, h.a % std::min(4096, N + 1)); explicit_off = h.a % std::min(4096, N + 1); after_failure = false; break;
       case 3: case 4: case 5: {
         int start = asm_get_offset(a);
         if (after_failure) { asm_set_offset(a, explicit_off); start = explicit_off; } // the offset after a failed call is unspecified: set it explicitly (C15's premise); C07 covers the unset case
-        if (start < 0 || start > 8000) { asm_set_offset(a, 0); start = 0; }
+        if (start < 0 || start > std::min(8000, N)) { asm_set_offset(a, 0); start = 0; }
         std::vector<uint8_t> before(buf.begin(), buf.begin() + start);
         CallOut o = do_call(a, P, h);
         if (start > 0 && memcmp(before.data(), buf.data(), start)) { asm_destroy_instance(a); asm_destroy_instance(f); for (auto x : other) if (x) asm_destroy_instance(x); return bad("prefix-touched", "a call modified bytes before its starting offset " + std::to_string(start)); }
@@ -403,16 +443,18 @@ static HV check15(const Pool &P, const C15Case &c) {
   }
   asm_mov_imm(f, (enum asm_opt)mopt.mov); asm_sib_index_base_swap(f, (enum asm_opt)mopt.swap); asm_sib_no_base(f, (enum asm_opt)mopt.nobase);
   if (last_chunk >= 2) asm_set_chunk_size(f, last_chunk);
-  asm_set_offset(a, c.k); asm_set_offset(f, c.k);
+  const int K = c.k % (N + 1);
+  asm_set_offset(a, K); asm_set_offset(f, K);
   CallOut oa = do_call(a, P, c.final), of = do_call(f, P, c.final);
   std::string prog = program_for(P, c.final.a, c.final.b, c.final.kind == 4 ? c.final.c : -1);
   HV res;
   if (oa.rc != of.rc) res = bad("return-code", "after the history the final call returned " + std::to_string(oa.rc) + ", on a fresh instance " + std::to_string(of.rc));
   else if (oa.off != of.off) res = bad("offset", "resulting offset " + std::to_string(oa.off) + " vs " + std::to_string(of.off) + " on a fresh instance");
   else if (oa.cnt != of.cnt) res = bad("count", "chunk count " + std::to_string(oa.cnt) + " vs " + std::to_string(of.cnt));
-  else if (oa.rc == 0 && oa.off >= c.k && oa.off <= N && memcmp(buf.data() + c.k, fresh.data() + c.k, oa.off - c.k)) res = bad("bytes", "bytes of the final call differ from those on a fresh instance");
+  else if (oa.rc == 0 && oa.off >= K && oa.off <= N && memcmp(buf.data() + K, fresh.data() + K, oa.off - K)) res = bad("bytes", "bytes of the final call differ from those on a fresh instance");
+  else if (oa.rc == 0 && (oa.off < K || oa.off > N)) res = bad("offset", "resulting offset " + std::to_string(oa.off) + " outside the buffer of " + std::to_string(N) + " bytes");
   // the instance must still be usable after everything
-  if (res.ok) { asm_set_offset(a, 0); asm_set_chunk_size(a, 0); if (asm_assemble_str(a, "nop\n") != 0 || asm_get_offset(a) != 1) res = bad("unusable", "instance cannot assemble a nop after the history"); }
+  if (res.ok && N >= 20) { asm_set_offset(a, 0); asm_set_chunk_size(a, 0); if (asm_assemble_str(a, "nop\n") != 0 || asm_get_offset(a) != 1) res = bad("unusable", "instance cannot assemble a nop after the history"); }
   asm_destroy_instance(a); asm_destroy_instance(f); for (auto x : other) if (x) asm_destroy_instance(x);
   (void)prog;
   return res;
@@ -431,7 +473,7 @@ void prop_c15(hz::Ctx &ctx) {
   auto run = [&](const C15Case &c, const std::string &part, bool viarc) {
     std::string id = ser15(c); if (!ctx.begin(id, text15(P, c).substr(0, 400))) return;
     ctx.cls(part);
-    bool nt = false; for (auto &h : c.hist) if (h.kind == 4 || h.kind == 5 || h.kind == 6 || h.kind == 7) nt = true; if (nt) ctx.nontrivial(id);
+    bool nt = false; for (auto &h : c.hist) if (h.kind == 4 || h.kind == 5 || h.kind == 6 || h.kind == 7) nt = true; if (nt) ctx.nontrivial(id); if (c.n < 16384) ctx.cls("buffer:small");
     for (auto &h : c.hist) { if (h.kind == 4) { ctx.cls("hist:failing-call"); break; } } for (auto &h : c.hist) { if (h.kind == 5) { ctx.cls("hist:counting"); break; } } for (auto &h : c.hist) { if (h.kind == 6) { ctx.cls("hist:bystander"); break; } }
     HV v = check15(P, c);
     if (ctx.want_sample()) ctx.put_sample(text15(P, c).substr(0, 300) + " -> " + (v.ok ? "same as on a fresh instance" : v.detail));
@@ -443,9 +485,9 @@ void prop_c15(hz::Ctx &ctx) {
   for (auto &x : alpha) hs.push_back({x});
   for (auto &x : alpha) for (auto &y : alpha) hs.push_back({x, y});
   for (auto &x : alpha) for (auto &y : alpha) for (auto &z : alpha) hs.push_back({x, y, z});
-  for (size_t i = 0; i < hs.size(); i++) for (size_t j = 0; j < finals.size(); j++) { if (!ctx.take()) continue; C15Case c; c.hist = hs[i]; c.final = finals[j]; c.k = (int)((i * 37 + j * 11) % 300); c.poolseed = ctx.seed; run(c, "part:exhaustive-len<=3", false); }
+  for (size_t i = 0; i < hs.size(); i++) for (size_t j = 0; j < finals.size(); j++) { if (!ctx.take()) continue; C15Case c; c.hist = hs[i]; c.final = finals[j]; c.k = (int)((i * 37 + j * 11) % 300); c.poolseed = ctx.seed; if ((i + j) % 4 == 0) c.n = 40 + (int)((i * 7 + j) % 120); run(c, "part:exhaustive-len<=3", false); }
   // random histories (rapidcheck)
-  auto gen_case = rc::gen::apply([&](std::vector<HCmd> h, int k, HCmd fin) { C15Case c; c.hist = h; c.k = k; c.final = fin; c.poolseed = ctx.seed; return c; }, rc::gen::container<std::vector<HCmd>>(gen_hcmd(false)), range(0, 4096), gen_hcmd(true));
+  auto gen_case = rc::gen::apply([&](std::vector<HCmd> h, int k, HCmd fin, int nsel, int nsmall) { C15Case c; c.hist = h; c.k = k; c.final = fin; c.poolseed = ctx.seed; c.n = nsel < 4 ? 16384 : nsmall; return c; }, rc::gen::container<std::vector<HCmd>>(gen_hcmd(false)), range(0, 4096), gen_hcmd(true), range(0, 10), range(0, 400));
   rc_rounds(ctx, "C15-histories", ctx.thorough() ? 1500000 : 200000, 30, [&]() { C15Case c = *gen_case; run(c, "part:random", true); });
 }
 
